@@ -110,7 +110,10 @@ CHECKS.update({
             "every reachable state worker-side steps alone deliver everything accepted (measure-based termination); "
             "refutation of the pinned tree's Drop (c08_refuted_v0, defect D2).  Correspondence: scripted histories against a "
             "gated wrapped sink (every call blocks until the script releases it with ok/err/panic), exhaustive <= 4 actions x "
-            "capacities {0,1,2,unbounded}, targeted families, random histories, concurrent soak with 2-8 producers",
+            "capacities {0,1,2,unbounded}, targeted families, random histories, concurrent soak with 2-8 producers; payload shapes "
+            "(empty string, 100 kB, non-ASCII with newlines), four construction variants (builder orders, ::from / "
+            "::with_capacity), drops by unwinding threads, flush() on handles in every queue state, 12 error kinds of the wrapped "
+            "sink; sampled histories re-proved by vm_compute in Coq",
             QUEUE_NOTE, "machine-checked proof (Coq 8.16) on a hand-written model + differential correspondence check",
             "DESIGN.md 8.C08"),
     "C09": ("proof",
@@ -118,7 +121,8 @@ CHECKS.update({
             "outcome script, worker-side steps reach 'worker exited, everything accepted delivered, wrapped sink released'; "
             "DropH is one non-blocking step in every state; refutations of the pinned tree (defect D3) for capacities 0, 1, 2.  "
             "Correspondence: last drop at every occupancy 0..capacity+1 x capacities {0,1,2,3,unbounded} x outcome patterns, "
-            "observing the wrapped sink's Drop and the latency of drop()",
+            "observing the wrapped sink's Drop and the latency of drop(); the last handle also goes away on a thread that is "
+            "unwinding from a panic",
             QUEUE_NOTE, "machine-checked proof (Coq 8.16) on a hand-written model + differential correspondence check",
             "DESIGN.md 8.C09"),
     "C10": ("proof",
@@ -163,7 +167,9 @@ CHECKS.update({
             "does with a datagram is outside any model - the correspondence check observes real UDP (127.0.0.1) and Unix "
             "datagram sockets (blocking/non-blocking, ASCII / multi-byte UTF-8 / whitespace-edged / empty / up to 60 kB "
             "metrics, listener down/up as fault script, address lists of length 0/1/2, optional queuing wrapper) and compares "
-            "datagrams, results and stats with the model",
+            "datagrams, results and stats with the model; also destinations given as SocketAddr / host:port string / (host, port) "
+            "pair, a Unix path that is a symlink re-pointed to another listener after construction, failed flushes followed by "
+            "flushes after the listener is back (clause: flush Ok with the listener up => everything acknowledged has arrived)",
             TRUST + "modelled not verified: UdpSocket/UnixDatagram::send_to (one all-or-nothing datagram), loopback delivery",
             "machine-checked proof (Coq 8.16) on a hand-written model + differential correspondence check on real local sockets",
             "DESIGN.md 8.C13"),
@@ -174,7 +180,10 @@ CHECKS.update({
             "attempts = emits; buffered: attempts = the writer's underlying writes; identical through a queuing wrapper.  "
             "Correspondence: MetricSink::stats() after every generated socket history (incl. refused sends via a vanished Unix "
             "listener and through QueuingMetricSink), SocketStats::update hammered from 4-8 threads, a shared UdpMetricSink "
-            "with 4-8 emitting threads",
+            "with 4-8 emitting threads; SocketStats::update with every io::ErrorKind and written != len (family SU); real WouldBlock "
+            "refusals on a non-blocking Unix socket whose listener does not read (family XW); statistics read through a "
+            "QueuingMetricSink compared with the wrapped sink's own in every queue state (full bounded queue, busy worker, after "
+            "errors and panics)",
             TRUST + "modelled not verified: AtomicU64::fetch_add (atomic, wrapping); sockets as in C13",
             "machine-checked proof (Coq 8.16) on a hand-written model + differential correspondence check on real local sockets",
             "DESIGN.md 8.C14"),
